@@ -130,3 +130,111 @@ func ruleWindowAppend(w *World, r *Report, in map[*ssa.Function]bool) {
 		r.add("WINDOW-APPEND", "module scan", "-", Discharged, fmt.Sprintf("no window of a list is stored into one of the %d append-target field(s)", len(targets)))
 	}
 }
+
+// INPLACE-GROW: ys := xs[:0] re-uses the storage of xs.  Filtering xs into ys
+// while ranging over xs is safe as long as an iteration appends at most one
+// element: the write position never passes the read position.  An iteration
+// that appends two or more elements (a subdivision, an expansion) overwrites
+// elements of xs that the loop has not read yet.
+func ruleInplaceGrow(w *World, r *Report, in map[*ssa.Function]bool) {
+	r.Rule("INPLACE-GROW", "a list that re-uses the storage of the list being ranged over (ys := xs[:0]; for _, x := range xs { ys = append(ys, ...) }) receives at most one element per iteration: with two or more the write position overtakes the read position and unread elements of xs are overwritten")
+	n := 0
+	for _, f := range w.ModFuncs {
+		if f.Synthetic != "" || f.Blocks == nil {
+			continue
+		}
+		can := w.IsCanary(f)
+		if !can && (in == nil || !in[f]) {
+			continue
+		}
+		name := w.FuncName(f)
+		ord := 0
+		instrs(f, func(ins ssa.Instruction) {
+			sl, ok := ins.(*ssa.Slice)
+			if !ok || sl.High == nil || sl.Max != nil || !isSlice(sl.X.Type()) {
+				return
+			}
+			if k, isK := constInt(sl.High); !isK || k != 0 {
+				return
+			}
+			for _, sr := range findSliceRanges(f) {
+				if !sameValue(sr.X, sl.X) {
+					continue
+				}
+				blocks := sr.blocks()
+				// appends inside the loop whose chain starts at the window
+				var aps []*ssa.Call
+				for b := range blocks {
+					for _, in2 := range b.Instrs {
+						c, ok := in2.(*ssa.Call)
+						if !ok || builtinName(c) != "append" {
+							continue
+						}
+						ai := appendChain(c)
+						for _, base := range ai.Bases {
+							if base == ssa.Value(sl) {
+								aps = append(aps, c)
+							}
+						}
+					}
+				}
+				if len(aps) == 0 {
+					continue
+				}
+				ord++
+				if !can {
+					n++
+				}
+				key := fmt.Sprintf("INPLACE-GROW / %s / window#%d", name, ord)
+				bad, open := "", ""
+				for _, ap := range aps {
+					elems, spread := appendedElems(ap)
+					if spread != nil {
+						open = "an append spreads a list of unknown length into the re-used storage (" + shortInstr(ap) + ")"
+						continue
+					}
+					if len(elems) > 1 {
+						bad = fmt.Sprintf("one iteration appends %d elements (%s at %s)", len(elems), shortInstr(ap), w.Pos(ap.Pos()))
+					}
+					// a second append reachable from this one within the same iteration
+					after := map[*ssa.BasicBlock]bool{}
+					for _, s := range ap.Block().Succs {
+						for b := range reachableFrom(s, map[*ssa.BasicBlock]bool{sr.Header: true}) {
+							if blocks[b] {
+								after[b] = true
+							}
+						}
+					}
+					cnt := 0
+					for _, in2 := range ap.Block().Instrs {
+						for _, a2 := range aps {
+							if in2 == ssa.Instruction(a2) {
+								cnt++
+							}
+						}
+					}
+					for _, a2 := range aps {
+						if a2 != ap && a2.Block() != ap.Block() && after[a2.Block()] {
+							cnt++
+						}
+					}
+					if cnt > 1 && bad == "" {
+						bad = "one iteration can append twice (" + shortInstr(ap) + " at " + w.Pos(ap.Pos()) + " and a second append after it)"
+					}
+				}
+				switch {
+				case bad != "":
+					r.Add(Obligation{Rule: "INPLACE-GROW", Key: key, Pos: w.Pos(sl.Pos()), Status: Violated, Canary: can,
+						Detail: shortInstr(sl) + " re-uses the storage of the list the loop at " + w.Pos(sr.Header.Instrs[0].Pos()) + " ranges over, and " + bad + ": the write position overtakes the read position and elements that have not been read yet are overwritten"})
+				case open != "":
+					r.Add(Obligation{Rule: "INPLACE-GROW", Key: key, Pos: w.Pos(sl.Pos()), Status: Undecided, Canary: can, Detail: open})
+				default:
+					r.Add(Obligation{Rule: "INPLACE-GROW", Key: key, Pos: w.Pos(sl.Pos()), Status: Discharged, Canary: can, Detail: "in-place filter: at most one element appended per element read"})
+				}
+			}
+		})
+	}
+	if n == 0 {
+		r.add("INPLACE-GROW", "module scan", "-", Discharged, "no list re-uses the storage of a list that is being ranged over")
+	}
+}
